@@ -58,6 +58,8 @@ structure Abs where
   h1 : Bool := false     -- `first_order_stats_meaning` is known
   hD : Bool := false     -- `difference_stats_meaning` is known
   skip : Bool := false   -- a 206YYY skip is pending
+  ad : Nat := 0          -- depth of the 204 stack (`nbits_associated_list`), the same in both walks
+  hA : Bool := false     -- `associated_field_meaning` (the node of an 031021 met while a field is in force) is known
   deriving DecidableEq, Repr
 
 /-- an element that is not of class 33 went through `process_element_descriptor` -/
@@ -96,7 +98,7 @@ def Abs.op (a : Abs) (id : Nat) : Option Abs :=
   else none
 
 def Abs.join (a b : Abs) : Option Abs :=
-  if a.w = b.w ∧ a.w1 = b.w1 ∧ a.wD = b.wD ∧ a.h1 = b.h1 ∧ a.hD = b.hD ∧ a.skip = b.skip then
+  if a.w = b.w ∧ a.w1 = b.w1 ∧ a.wD = b.wD ∧ a.h1 = b.h1 ∧ a.hD = b.hD ∧ a.skip = b.skip ∧ a.ad = b.ad ∧ a.hA = b.hA then
     some { a with qN := a.qN || b.qN, qW := a.qW || b.qW, qP := a.qP || b.qP }
   else none
 
@@ -106,6 +108,27 @@ def Abs.elem (a : Abs) (id : Nat) : Option Abs :=
   else if xOf id = 33 then a.c33
   else some (a.non33.meaning id)
 
+/-- operators: 204YYY / 204000 push and pop; while an associated field is in force only 201 202 205 207 208 are admitted,
+    and 206YYY in front of a LOCAL (undefined) descriptor - `Abs.elemA` refuses a known element behind it: finding F11b
+    (no bit-map construct, no 203: findings F11a, F11c, F11-C07-wire-*) -/
+def Abs.opA (a : Abs) (id : Nat) : Option Abs :=
+  if id / 1000 = 204 then
+    (if id % 1000 = 0 then (if a.ad = 0 then none else some { a with ad := a.ad - 1 })
+     else some { a with ad := a.ad + 1 })
+  else if a.ad = 0 ∨ id / 1000 = 206 then a.op id
+  else if id / 1000 = 201 ∨ id / 1000 = 202 ∨ id / 1000 = 207 ∨ id / 1000 = 208 ∨ id / 1000 = 205 then some a
+  else none
+
+/-- elements: while an associated field is in force a class 31 element is wired alone (031021 becomes the meaning
+    node), any other element with its associated field, whose meaning node must be known; no class 33 (finding
+    F11-C07-wire-qa33), no pending 206 skip -/
+def Abs.elemA (a : Abs) (id : Nat) : Option Abs :=
+  if a.ad = 0 then a.elem id
+  else if a.skip then none
+  else if xOf id = 31 then some { a.non33 with hA := a.hA || decide (id = 31021) }
+  else if xOf id = 33 then none
+  else if a.hA then some a.non33 else none
+
 mutual
 def absList : List Desc → Abs → Option Abs
   | [], a => if a.skip then none else some a
@@ -114,10 +137,10 @@ def absList : List Desc → Abs → Option Abs
     | some a' => absList ds a'
 
 def abs1 : Desc → Abs → Option Abs
-  | .elem e, a => a.elem e.id
+  | .elem e, a => a.elemA e.id
   | .undefElem _, a => some { a with skip := false }
   | .undefSeq _, _ => none
-  | .op id, a => if a.skip then none else a.op id
+  | .op id, a => if a.skip then none else a.opA id
   | .seq id ms, a => if a.skip = true ∨ id / 100000 = 1 then none else absList ms a
   | .fixedRep id ms, a =>
     if a.skip = true ∨ id / 100000 ≠ 1 then none
@@ -128,7 +151,7 @@ def abs1 : Desc → Abs → Option Abs
     if a.skip = true ∨ id / 100000 ≠ 1 then none
     else match f with
       | .elem fe =>
-        if xOf fe.id = 33 then none
+        if xOf fe.id = 33 ∨ (a.ad ≠ 0 ∧ xOf fe.id ≠ 31) then none
         else match absList ms a.non33 with
           | none => none
           | some a1 => if absList ms a1 = some a1 then a.non33.join a1 else none
